@@ -56,6 +56,14 @@ def gPod : Nat := 0
 def gWorkload : Nat := 1
 def gNodeOp : Nat := 2
 
+/-- the prefix of the formatted lock name of a group (`cluster.PodLock`, `WorkloadLock`,
+    `NodeOperationLock` without their `%s` verbs; tied to the source by Generated/LockFacts) -/
+def groupPrefix (g : Nat) : String :=
+  if g == gPod then "plock_" else if g == gWorkload then "clock_" else if g == gNodeOp then "cnode_op_" else ""
+
+/-- the formatted lock name as the store sees it -/
+def Key.render (k : Key) : String := groupPrefix k.group ++ k.name
+
 /-- global rank order: (group, name) lexicographic -/
 def keyLt (a b : Key) : Bool := decide (a.group < b.group) || (a.group == b.group && decide (a.name < b.name))
 
